@@ -183,11 +183,11 @@ theorem flat4_toItem (runs : List (Nat × Nat × List Line)) :
 
 def newItem (M : List Cell) (j : Nat) : Item := (numOf M j, (M.getD j default).line)
 
-theorem mem_addIdx {M : List Cell} {j : Nat} :
+theorem mem_addIdxI {M : List Cell} {j : Nat} :
     j ∈ addIdx M ↔ j < M.length ∧ (M.getD j default).newOnly = true := by
   simp [addIdx, Cell.newOnly]
 
-theorem mem_delIdx {M : List Cell} {j : Nat} :
+theorem mem_delIdxI {M : List Cell} {j : Nat} :
     j ∈ delIdx M ↔ j < M.length ∧ (M.getD j default).oldOnly = true := by
   simp [delIdx, Cell.oldOnly]
 
@@ -197,7 +197,7 @@ theorem insertRuns_numOf (M : List Cell) :
   rw [← flat4_toItem, insertRuns_items, List.map_map]
   apply List.map_congr_left
   intro j hj
-  have := (mem_addIdx.mp hj).2
+  have := (mem_addIdxI.mp hj).2
   simp [Cell.newOnly] at this
   simp [item4, Item4.toItem, newItem, numOf, this.2]
 
@@ -235,7 +235,7 @@ theorem runsShort_of_runsOK (M : List Cell) (h : runsOK M = true) : runsShort M 
     simp only [runOff]
     split
     · rename_i hn
-      have hk : k ∈ addIdx M := mem_addIdx.mpr ⟨by omega, hn⟩
+      have hk : k ∈ addIdx M := mem_addIdxI.mpr ⟨by omega, hn⟩
       have := hall (item4 M k) (List.mem_map.mpr ⟨k, hk, rfl⟩)
       simpa [item4] using this
     · omega
